@@ -252,11 +252,19 @@ class _WrapperCache:
 
             skip = False
             tail_node = node._tail_node
+            # a text node that is referenced elsewhere must stay the one that is bound
+            # to its position
+            if getrefcount(tail_node) > 3 + (tail_node._appended_text_node is not None):
+                continue
 
             if isinstance(node, TagNode):
                 # data node is checked first, assuming that appended text nodes tend
                 # to be used in the depths of a tree
                 data_node = node._data_node
+                if getrefcount(data_node) > 3 + (
+                    data_node._appended_text_node is not None
+                ):
+                    continue
                 current = data_node._appended_text_node
                 while current is not None:
                     _next = current._appended_text_node
